@@ -9,19 +9,52 @@ theorem migrate_eq (s : State) (p : PodObj) (out inQ : Nat) :
       (let asg := assignedIn s out p.id
        let s3 := removePodFrom s out p false
        let s4 := cacheAdd s3 inQ p
-       let s5 := if asg then setAssigned s4 inQ p.id true else s4
+       let s5 := setAssigned s4 inQ p.id asg
        let s6 := updPodReq s5 inQ none (some p)
        if asg then updPodUsed s6 inQ p.id none (some p) else s6) := by
   simp [migratePod, removePodFrom]
 
+theorem set_get_self : ∀ {s : State} {q : Quota}, get? s q.name = some q → set s q = s
+  | [], _, h => by simp [get?] at h
+  | x :: t, q, h => by
+    simp only [get?] at h
+    simp only [set]
+    by_cases hx : x.name = q.name
+    · simp only [hx, if_true, Option.some.injEq] at h
+      simp [hx, h]
+    · simp only [hx, if_false] at h
+      simp only [hx, if_false]
+      rw [set_get_self h]
+
+/-- flagging a fresh (unassigned) entry as unassigned changes nothing -/
+theorem setAssigned_false_fresh {s : State} {n : Nat} {p : PodObj} {q : Quota} (hq : get? s n = some q)
+    (hne : getPod q.pods p.id = none) : setAssigned (cacheAdd s n p) n p.id false = cacheAdd s n p := by
+  have hex : podExists q p.id = false := by rw [podExists_eq, hne]; rfl
+  have heq : cacheAdd s n p = set s { q with pods := newEntry p :: q.pods } := by
+    simp [cacheAdd, hq, hex, newEntry]
+  have hq4 : get? (cacheAdd s n p) n = some { q with pods := newEntry p :: q.pods } := by
+    rw [heq]; exact get?_setq hq rfl
+  rw [setAssigned_eq hq4]
+  have hpods : updPods (gAsg false) p.id (newEntry p :: q.pods) = newEntry p :: q.pods := by
+    have := updPods_none (g := gAsg false) hne
+    simp only [updPods] at this
+    simp only [updPods, List.map_cons, this]
+    simp [newEntry, gAsg]
+  simp only [hpods]
+  apply set_get_self
+  have hqn := get?_name hq
+  simpa [hqn] using hq4
+
 theorem migrateIn_good {s : State} {n : Nat} {p : PodObj} {q : Quota} (h : Good s) (hp : 0 ≤ p.req)
     (hq : get? s n = some q) (hmax : q.max.isSome = true) (hne : getPod q.pods p.id = none) (asg : Bool) :
     Good (let s4 := cacheAdd s n p
-          let s5 := if asg then setAssigned s4 n p.id true else s4
+          let s5 := setAssigned s4 n p.id asg
           let s6 := updPodReq s5 n none (some p)
           if asg then updPodUsed s6 n p.id none (some p) else s6) := by
   cases asg with
-  | false => simpa using (addReq_good h hp hq hmax hne).1
+  | false =>
+    simp only [setAssigned_false_fresh hq hne]
+    simpa using (addReq_good h hp hq hmax hne).1
   | true =>
     simp only [if_true]
     have hm : Mid s n 0 0 0 0 := mid_switch h
